@@ -350,6 +350,13 @@ def check_c11(prop, tier):
                 for oc, nc, body in ((1, 1, b'-a\n+b\n'), (0, 1, b'+b\n'), (1, 0, b'-a\n'), (2, 1, b' c\n-a\n+b\n'), (3, 3, b' c\n c\n-zz\n+b\n'), (3, 3, b' c\n-zz\n+b\n c\n'),
                                      (2, 2, b'-zz\n+b\n c\n')):
                     add(b'--- a/x\n+++ b/x\n@@ -%d,%d +%d,%d @@\n' % (o, oc, n_, nc) + body, 'numeric')
+        # two hunks: the first applies with an offset (the file has a line more in front), the second is numbered with every class
+        two0 = len(jobs)
+        for o in NUMS:
+            for body in (b'-zz\n+b\n', b' c\n-zz\n+b\n c\n'):
+                oc = body.count(b'\n') - 1
+                add(b'--- a/x\n+++ b/x\n@@ -1,1 +1,1 @@\n-a\n+A\n@@ -%d,%d +%d,%d @@\n' % (o, oc, o, oc) + body, 'numeric')
+        two1 = len(jobs)
         # every byte value next to the digits of a hunk header (a "digit" is an ASCII digit and nothing else)
         for b in range(256):
             for form in (b'@@ -1%s,1 +1,1 @@\n', b'@@ -%s1,1 +1,1 @@\n', b'@@ -1,1%s +1,1 @@\n', b'@@ -1,1 +1%s,1 @@\n', b'@@ -1,1 +1,%s1 @@\n'):
@@ -419,6 +426,7 @@ def check_c11(prop, tier):
                 seen_shapes.add(shape); distinct.append(jid)
         pick += distinct if len(distinct) <= (2500 if tier == 'quick' else 20000) else rnd.sample(distinct, 2500 if tier == 'quick' else 20000)
         pick += list(range(nbase, nbase + 4 * len(NUMS) * 6))[::3] + list(range(nbase + 4 * len(NUMS) * 6, nbase + 4 * len(NUMS) * 6 + 7 * len(NUMS) ** 2))
+        pick += list(range(two0, two1))
         for jid in pick:
             cli_jobs.append(('patch', jobs[jid][1], b'p.patch\n'))
         stoks = [b'p.patch', b'-p0', b'-p1', b'-p', b'2', b'--strip=2', b'--strip', b'-R', b'--reverse', b'-Rp2', b'#c', b'-x', b'--bogus', b'',
@@ -459,7 +467,7 @@ def _cli_total(job):
     kind, patch, series = job
     w = ws.mkws('c11')
     try:
-        ws.write(w, 'x', b'c\na\nc\n' if len(patch) % 3 else b'a\n')
+        ws.write(w, 'x', b'c\nc\na\nc\n' if b'+A\n' in patch else (b'c\na\nc\n' if len(patch) % 3 else b'a\n'))
         ws.write(w, 'patches/p.patch', patch)
         ws.write(w, 'patches/q.patch', b'')
         ws.write(w, 'series', series)
